@@ -20,7 +20,7 @@ type pgen struct {
 
 var colNames = []string{"a", "b", "c", "k", "x", "n", "Kind", "name"}
 var tableNames = []string{"T", "U", "Events", "`my table`", "B", "`let`", "`by`", "Let"}
-var unknownFuncs = []string{"f", "strlen", "min", "max", "sum", "avg", "dcount", "g", "IsNull", "Not", "NOT", "StrCat", "ToLower", "Now", "Iff", "IsNotNull", "Count"}
+var unknownFuncs = []string{"f", "strlen", "min", "max", "sum", "avg", "dcount", "g", "IsNull", "StrCat", "ToLower", "Now", "Iff", "IsNotNull", "Count"}
 var builtinFuncs = []struct {
 	name  string
 	arity int
